@@ -17,6 +17,18 @@ CHECKS = {
             "§3-C08", "start<=last, strictly increasing seqs inside [start,last]; chunk size >= 1"),
 }
 
+CHECKS.update({
+    "C01": (True, "exploration", "SimCluster over the real ingest/sync code with seeded histories and delivery schedules; oracles: pairwise digests, reference merge, value provenance",
+            "Runtime monitor: 2-4 real nodes (real setup(), SQLite, cr-sqlite, QUIC sync) whose broadcast chunks the harness captures and delivers under a seeded hostile schedule (reorder, duplicate, drop, re-chunk, batch, relay), then real sync sessions over all ordered pairs until a fixpoint (bounded: N+3 rounds). After the fixpoint every node's tables and per-cell (col_version, cl) must equal each other and a reference merge of the complete change lists, and every visible value must stem from an acknowledged transaction.",
+            "§3-C01", "bounded liveness restatement (fixpoint within N+3 rounds); known finding F15 recorded in known_findings.json"),
+    "C09": (True, "exploration", "round-trip and differential oracles over the real codecs + hostile-bytes decoding in RLIMIT'd child processes with a counting allocator",
+            "Runtime monitor: every protocol type/variant is encoded, decoded by the real entry points and re-encoded (byte equality, value equality for HashMap-bearing states); pack_columns is compared byte-for-byte with the loaded extension's crsql_pack_columns and round-tripped through unpack_columns; structure-aware hostile inputs (tags, 32/64-bit length attacks, truncations, splices, UTF-8 damage, random) are decoded in child processes where panics, signals, aborts, allocation beyond 64*len+64KiB and invalid UTF-8 text are observed.",
+            "§3-C09", "inputs up to ~2 MiB executed; allocation bound is the stated reading of 'memory unrelated to the input size'"),
+    "C18": (True, "exploration", "reference fold-by-newest-identity + ring model compared with the real Members after every step (small-scope complete + seeded random)",
+            "Runtime monitor: sequences of up/down notifications and RTT samples (restricted to what SWIM can emit) are applied to the real Members and to a 25-line reference fold; presence, address, cluster, ring bucket and ring0() selection are compared after every step.",
+            "§3-C18", "foca 0.19 notification contract; identity = (actor, timestamp) with one address and cluster"),
+})
+
 NOT_YET = {
 }
 
